@@ -34,6 +34,34 @@ func init() {
 		}
 		sort.Strings(conds)
 		out.f("def evmAnteNonceConditions : List String := %s\n", leanStrList(conds))
+		// applyEvmMsgNonceAndVm: in Keeper.ApplyEvmMsg, in source order, every StateDB.SetNonce call (with its arguments) and every
+		// interpreter entry (Create / Call): the nonce the interpreter sees — and derives a creation address from — is the one pinned
+		// just before it
+		var seq []string
+		if fd := findFunc(repo, "x/evm/keeper", "Keeper.ApplyEvmMsg"); fd != nil {
+			ast.Inspect(fd.Body, func(n ast.Node) bool {
+				ce, ok := n.(*ast.CallExpr)
+				if !ok {
+					return true
+				}
+				if se, ok := ce.Fun.(*ast.SelectorExpr); ok {
+					switch se.Sel.Name {
+					case "SetNonce":
+						var args []string
+						for _, a := range ce.Args {
+							args = append(args, exprString(a))
+						}
+						seq = append(seq, "SetNonce("+strings.Join(args, ", ")+")")
+					case "Create", "Call":
+						if strings.HasSuffix(exprString(se.X), "evmObj") {
+							seq = append(seq, se.Sel.Name)
+						}
+					}
+				}
+				return true
+			})
+		}
+		out.f("def applyEvmMsgNonceAndVm : List String := %s\n", leanStrList(seq))
 		return nil
 	}
 }
